@@ -243,7 +243,7 @@ inductive Op where
   | setKids (o : Nat) (n : Nat)                -- o.kids = [N() …]
   | splice (o : Nat) (i j n : Nat)             -- o.kids[i:j] = [N() …]  (append/insert/del/clear are instances)
   | setDict (o : Nat) (keys : List Nat)        -- o.byname = {k: N() …}
-  | dictUpdate (o : Nat) (keys : List Nat)     -- o.byname[k] = N() / o.byname.update({k: N() …})
+  | dictSet (o : Nat) (key : Nat)             -- o.byname[k] = N()
   | dictDel (o : Nat) (key : Nat)              -- del o.byname[k]
   | dictClear (o : Nat)                        -- o.byname.clear()
   | probe (o : Nat) (f : Final)                -- o.value += 1
@@ -266,20 +266,6 @@ def regAll (xs : List Nat) : List Act := xs.map .reg
 def dedupKeys : List Nat → List Nat
   | [] => []
   | k :: ks => k :: (dedupKeys ks).filter (· ≠ k)
-
-/-- `TraitDict.update` / `__setitem__` (trait_dict_object.py:159-182, 244-273) on
-the association list: existing keys are overwritten in place (`changed`), new keys
-appended (`added`).  Returns new items, added values, changed (old, new) pairs. -/
-def dictUpd : List (Nat × Nat) → List (Nat × Nat) → List (Nat × Nat) × List Nat × List (Nat × Nat)
-  | d, [] => (d, [], [])
-  | d, (k, v) :: kvs =>
-    match d.find? (·.1 = k) with
-    | some (_, old) =>
-      let (d', a, c) := dictUpd (d.map (fun e => if e.1 = k then (k, v) else e)) kvs
-      (d', a, (old, v) :: c)
-    | none =>
-      let (d', a, c) := dictUpd (d ++ [(k, v)]) kvs
-      (d', v :: a, c)
 
 /-- The heap change, the trait that fires and what its `handle_*` methods do.
 `none` = the operation is not applicable (skipped on both sides). -/
@@ -318,16 +304,21 @@ def mutate (h : Heap) : Op → Option Mut
       -- handle_dict(old, new)
       some ⟨h', o, .link .byname, unregAll olds ++ regAll news, !(olds.isEmpty && news.isEmpty)⟩
     else none
-  | .dictUpdate o keys =>
+  | .dictSet o key =>
+    -- TraitDict.__setitem__ (trait_dict_object.py:159-182): an existing key gives
+    -- `changed = {key: old}`, a new key `added = {key: value}`
     if o < h.next then
-      let keys := dedupKeys keys
-      let news := freshIds h keys.length
-      let (d', added, changed) := dictUpd (h.obj o).byname (keys.zip news)
-      let h' := (h.setObj o { h.obj o with byname := d' }).bump keys.length
-      -- handle_dict_items: handle_dict(removed = {}, added); then for changed:
-      --   unregister(old value); register(dict[key])
-      some ⟨h', o, .items .byname,
-            regAll added ++ changed.flatMap (fun c => [.unreg c.1, .reg c.2]), !keys.isEmpty⟩
+      let new := h.next
+      match (h.obj o).byname.find? (·.1 = key) with
+      | some (_, old) =>
+        let d' := (h.obj o).byname.map (fun e => if e.1 = key then (key, new) else e)
+        let h' := (h.setObj o { h.obj o with byname := d' }).bump 1
+        -- handle_dict_items: handle_dict({}, {}); for changed: unregister(old); register(dict[key])
+        some ⟨h', o, .items .byname, [.unreg old, .reg new], true⟩
+      | none =>
+        let h' := (h.setObj o { h.obj o with byname := (h.obj o).byname ++ [(key, new)] }).bump 1
+        -- handle_dict_items: handle_dict(removed = {}, added = {key: new})
+        some ⟨h', o, .items .byname, [.reg new], true⟩
     else none
   | .dictDel o key =>
     if o < h.next then
@@ -432,5 +423,7 @@ structure TreeShaped (h : Heap) : Prop where
   bound : ∀ o a c, c ∈ targets h a o → c < h.next
   empty : ∀ o a, h.next ≤ o → targets h a o = []
   pos : 0 < h.next
+  /-- a dict has no duplicate keys -/
+  keys : ∀ o, ((h.obj o).byname.map (·.1)).Nodup
 
 end TraitsVerif.Model.Legacy
